@@ -61,7 +61,7 @@ def eligibility(ix, sid):
     return out
 
 
-def oracle(case, trace, ix, res, prefix='C12'):
+def oracle(case, trace, ix, res, prefix='C12', focus=None):
     nontrivial = False
     all_events = trace.events
     for sp in ix.scheds():
@@ -77,7 +77,7 @@ def oracle(case, trace, ix, res, prefix='C12'):
             for m in sp['members']:
                 mid = m['id']
                 t_elig = elig[mid]
-                if t_elig is None:
+                if t_elig is None or (focus is not None and not focus(sid, mid)):
                     continue
                 en = ix.enter(mid)
                 if en is not None:
@@ -117,7 +117,8 @@ def oracle(case, trace, ix, res, prefix='C12'):
                 if running >= sp['window']:
                     continue
                 waiting = [mid for mid in ids
-                           if mid not in entered and elig[mid] is not None and elig[mid] <= t]
+                           if mid not in entered and elig[mid] is not None and elig[mid] <= t
+                           and (focus is None or focus(sid, mid))]
                 nontrivial = True
                 res.label('window:free-slot-observed')
                 if waiting:
